@@ -85,7 +85,7 @@ _SUSPECTS: list = []
 
 # ---------------------------------------------------------------- L1
 def correspondence(ctx):
-    progs = _gen(ctx, ctx.n(80, 1000), "L1")
+    progs = _gen(ctx, ctx.n(60, 1000), "L1")
     dis = []
     cases, meta = [], []
     for text, info, st, ins in progs:
